@@ -38,10 +38,12 @@ class RTree(Core):
         Core.__init__(self, scripting, switches)
         self.tok = rtok.RTok(text, "data", None, self.cdata_allowed,
                              ("cdata-nul-replaced-by-tokenizer",) if "cdata-nul-replaced-by-tokenizer" in self.sw else ())
+        self.tok.want_pieces = "h5-character-token-granularity" in self.sw
         self.mode = "initial"
         self.orig_mode = None
         self.pending_table_text = []
         self.skip_lf = False
+        self.h5_drop_lf = False
         self.stack_root = None
         if fragment_context is not None:
             self.fragment = True
@@ -74,8 +76,17 @@ class RTree(Core):
     def run(self):
         for t in self.tok.tokens():
             if t[0] == "chars":
-                for seg in split_chars(t[1]):
-                    self.dispatch(seg)
+                if self.tok.want_pieces:
+                    for pc in t[2]:
+                        if pc == "\x00":
+                            self.dispatch(("nul", pc))
+                        elif all(c in WS for c in pc):
+                            self.dispatch(("ws", pc))
+                        else:
+                            self.dispatch(("char", pc))
+                else:
+                    for seg in split_chars(t[1]):
+                        self.dispatch(seg)
             else:
                 self.dispatch(t)
                 if t[0] == "start":
